@@ -34,6 +34,10 @@ from ..core import guarded, MachineryError
 from ..par import Pool
 from ..project import fx, find_scale
 
+# per-call alarm of the library calls: generous (normal calls take < 10 s) - a slow or loaded machine must never
+# turn into a verdict; a genuine hang is still reported (as the event's err) after this time
+CALL_TIMEOUT = 900
+
 RULE = ('scenario = one mesh (given vertex numbering, cell order, local vertex orders, constructor) x one element; '
         'events = the one-sided traces of every global DOF on every interior facet; distinct = distinct '
         '(mesh class, p, t, ctor, element); non-trivial = at least one interior facet')
@@ -84,7 +88,7 @@ def _observe_mesh(spec, name, meta, e0, e1, events):
         # same-object history: use the mesh, call operations on it, discard their results, keep using the mesh
         MO.touch(m, spec, lambda mm: InteriorFacetBasis(mm, e0, side=0, intorder=2))
         return m
-    m, err = guarded(prepare, 90)
+    m, err = guarded(prepare, CALL_TIMEOUT)
     if err:
         setup['err'] = err
         return
@@ -100,7 +104,7 @@ def _observe_mesh(spec, name, meta, e0, e1, events):
     if len(find) == 0:
         setup['err'] = 'NoInteriorFacet'
         return
-    nd, err = guarded(lambda: int(InteriorFacetBasis(m, EL.make(name), side=0, facets=find[:1], intorder=1).N), 60)
+    nd, err = guarded(lambda: int(InteriorFacetBasis(m, EL.make(name), side=0, facets=find[:1], intorder=1).N), CALL_TIMEOUT)
     setup['ndofs'] = nd if not err else 1
     for q, at in groups:
         ev = {'a': 'Group', 'q': q, 'at': at, 'ncomp': 0, 'nq': 0, 'items': [], 'err': '', 'tind0': [], 'tind1': []}
@@ -134,7 +138,7 @@ def _observe_mesh(spec, name, meta, e0, e1, events):
                 for f in touched:
                     items.append({'d': d + 1, 'f': int(f) + 1, 'a': _fxa(A[:, f, :]), 'b': _fxa(B[:, f, :])})
             return N, ncomp, nq, items, [int(k) + 1 for k in fb0.tind], [int(k) + 1 for k in fb1.tind]
-        obs, err = guarded(observe, 120)
+        obs, err = guarded(observe, CALL_TIMEOUT)
         if err:
             ev['err'] = err
         else:
@@ -458,7 +462,7 @@ def run(ctx):
     ctx.notes['distinct_nontrivial'] = len(keys)
     ctx.notes['scenarios_from_tlc_universe'] = len(rrecs)
     ctx.notes['elements_driven'] = sorted({r['elem'] for r in recs})
-    ctx.notes['tolerances'] = {'TolGeom': '2^-36 x magnitude', 'TolGlobal': '2^-20 x magnitude (ElementGlobal families)'}
+    ctx.notes['tolerances'] = {'TolGeom': '2^-30 x magnitude', 'TolGlobal': '2^-17 x magnitude (ElementGlobal families)'}
     return ctx.finish(rule=RULE, assumptions=[
         'only element x mesh-class pairs inside the claim are driven: triangle meshes with sort_t=False only for '
         'families with one direction-free DOF per facet; BFS / HexC1 / Quad2G on axis-parallel boxes; HexRT1 on '
